@@ -115,6 +115,12 @@ pub fn family(rng: &mut Rng) -> (Vec<String>, &'static str) {
                 st.push(format!("(module) @m {{ attr (@m.zz_a) zz_k = {} }}", v));
             }
         }
+        if !on_edge && rng.chance(1, 3) {
+            // one stanza reaches the node through two matches (two children) with two values
+            st.push("(module (_) @c) @m { attr (@m.zz_a) zz_k = (source-text @c) }".to_string());
+            st.push("(module) @m { attr (@m.zz_a) zz_k = \"x = 1\" }".to_string());
+            return (st, "merge_node_attribute_with_a_stanza_matching_twice");
+        }
         (st, if on_edge { "merge_edge_attribute" } else { "merge_node_attribute" })
     } else {
         let (init, scoped, use_, name): (&str, &str, &str, &'static str) = match rng.below(4) {
